@@ -105,10 +105,10 @@ class RecordingDiscrete(gym.spaces.Discrete):
 
 
 class RecordingBox(gym.spaces.Box):
-    def __init__(self, low, high, seed=None):
-        low = np.asarray(low, dtype=np.float32)
-        high = np.asarray(high, dtype=np.float32)
-        super().__init__(low, high, low.shape, dtype=np.float32, seed=seed)
+    def __init__(self, low, high, seed=None, dtype=np.float32):
+        low = np.asarray(low, dtype=dtype)
+        high = np.asarray(high, dtype=dtype)
+        super().__init__(low, high, low.shape, dtype=dtype, seed=seed)
         self.sample_calls = []
         self.clock = None
 
@@ -139,7 +139,8 @@ def make_env(name, env_cfg, log=None, on_step=None):
     if discrete:
         space = RecordingDiscrete(int(env_cfg.get("n_actions", 3)), seed=space_seed)
     else:
-        space = RecordingBox(env_cfg.get("act_low", [-1.0]), env_cfg.get("act_high", [1.0]), seed=space_seed)
+        space = RecordingBox(env_cfg.get("act_low", [-1.0]), env_cfg.get("act_high", [1.0]), seed=space_seed,
+                             dtype=np.float64 if env_cfg.get("act64") else np.float32)
     env = ScriptedEnv(script, seed=sseed, obs_dim=int(env_cfg.get("obs_dim", 3)), action_space=space,
                       log=log, on_step=on_step, obs_dtype="float64" if env_cfg.get("obs64") else "float32")
     space.clock = lambda: env.n_steps
